@@ -355,6 +355,11 @@ def run_shards(ctx, fn_mod, fn_name, specs, procs=None):
             with ProcessPoolExecutor(max_workers=procs, mp_context=mp.get_context("fork")) as ex:
                 results = list(ex.map(_shard_entry, args, chunksize=1))
         except BrokenProcessPool:
+            for k in _descendants(os.getpid()):      # do not leave the other workers behind
+                try:
+                    os.kill(k, signal.SIGKILL)
+                except OSError:
+                    pass
             raise Infra("a worker process died (out of memory?)")
     for kind, payload in results:
         if kind == "infra":
